@@ -9,6 +9,7 @@ import (
 	"sort"
 	"strconv"
 	"strings"
+	"sync"
 	"time"
 
 	"golang.org/x/tools/go/ssa"
@@ -96,6 +97,7 @@ func loadAll(o *Options) (*World, error) {
 		return nil, err
 	}
 	w.noteSpecTypes()
+	registerTemplateAxioms(w)
 	return w, nil
 }
 
@@ -426,9 +428,58 @@ func report(o *Options, w *World, prop string, seed int, all []*Obligation, repo
 	replayDir := filepath.Join(o.verif, "out", "replays", prop)
 	os.RemoveAll(replayDir)
 	var violLines []string
+	// one violation per obligation (the same clause failing on several paths is one obligation): pick a
+	// representative with a counterexample if there is one
+	type group struct {
+		base string
+		rep  *Obligation
+		all  []*Obligation
+	}
+	groups := map[string]*group{}
+	var gorder []string
 	for _, ob := range append(append([]*Obligation{}, failed...), undecided...) {
+		base := ob.Func + "/" + strings.SplitN(ob.Name, "~", 2)[0]
+		g := groups[base]
+		if g == nil {
+			g = &group{base: base, rep: ob}
+			groups[base] = g
+			gorder = append(gorder, base)
+		}
+		if g.rep.Status != "failed" && ob.Status == "failed" {
+			g.rep = ob
+		}
+		g.all = append(g.all, ob)
+	}
+	// replays run in parallel (each is a `go test -overlay` on the real code); at most 8 per run
+	replays := make([]map[string]interface{}, len(gorder))
+	var rwg sync.WaitGroup
+	sem := make(chan bool, 4)
+	for i, base := range gorder {
+		if i >= 4 {
+			break
+		}
+		rwg.Add(1)
+		go func(i int, ob *Obligation) {
+			defer rwg.Done()
+			sem <- true
+			defer func() { <-sem }()
+			defer func() {
+				if r := recover(); r != nil {
+					replays[i] = map[string]interface{}{"replayed_on_real_code": false, "replay_note": fmt.Sprintf("replay generator failed: %v", r)}
+				}
+			}()
+			replayMu.Lock()
+			prep := replayPrepare(o, w, ob)
+			replayMu.Unlock()
+			replays[i] = replayRun(o, prep)
+		}(i, groups[base].rep)
+	}
+	rwg.Wait()
+	for i, base := range gorder {
+		g := groups[base]
+		ob := g.rep
 		os.MkdirAll(replayDir, 0o755)
-		safe := strings.NewReplacer("/", "_", " ", "_", "*", "", "(", "", ")", "", "#", "-", "@", "-").Replace(ob.Func + "." + ob.Name)
+		safe := strings.NewReplacer("/", "_", " ", "_", "*", "", "(", "", ")", "", "#", "-", "@", "-").Replace(base)
 		path := filepath.Join(replayDir, safe+".json")
 		reason := "counterexample"
 		if ob.Status != "failed" {
@@ -437,11 +488,15 @@ func report(o *Options, w *World, prop string, seed int, all []*Obligation, repo
 		if ob.Kind == "bind" || ob.Kind == "subset" {
 			reason = ob.Kind
 		}
-		rp := map[string]interface{}{"property": prop, "obligation": ob.Func + "/" + ob.Name, "kind": ob.Kind, "clause": ob.Clause,
+		var paths []map[string]interface{}
+		for _, a := range g.all {
+			paths = append(paths, map[string]interface{}{"name": a.Name, "status": a.Status, "path": a.Path, "note": a.Note})
+		}
+		rp := map[string]interface{}{"property": prop, "obligation": base, "kind": ob.Kind, "clause": ob.Clause,
 			"position": ob.Pos, "path": ob.Path, "reason": reason, "backend": ob.Backend, "solver_output": ob.Model, "note": ob.Note,
-			"replayed_on_real_code": false}
+			"replayed_on_real_code": false, "failing_paths": paths}
 		suffix := " no-failing-input-found"
-		if rr := replayObligation(o, w, ob); rr != nil {
+		if rr := replays[i]; rr != nil {
 			for k, v := range rr {
 				rp[k] = v
 			}
@@ -451,7 +506,7 @@ func report(o *Options, w *World, prop string, seed int, all []*Obligation, repo
 		}
 		b, _ := json.MarshalIndent(rp, "", " ")
 		os.WriteFile(path, b, 0o644)
-		violLines = append(violLines, fmt.Sprintf("VIOLATION property=%s replay=%s obligation=%s status=%s%s", prop, path, ob.Func+"/"+ob.Name, ob.Status, suffix))
+		violLines = append(violLines, fmt.Sprintf("VIOLATION property=%s replay=%s obligation=%s status=%s paths=%d%s", prop, path, base, ob.Status, len(g.all), suffix))
 		exit = 1
 	}
 	if len(vacuous) > 0 || nProof == 0 {
@@ -573,8 +628,7 @@ func round3(f float64) float64 { return float64(int(f*1000+0.5)) / 1000 }
 
 var propertyNotCovered = map[string][]string{}
 
-// replayObligation tries to reproduce a failed obligation on the real code (see replay.go).
-var replayObligation = func(o *Options, w *World, ob *Obligation) map[string]interface{} { return nil }
+var replayMu sync.Mutex
 
 var _ = ssa.NaiveForm
 
